@@ -217,3 +217,74 @@ theorem pullOK_transpose {α} (p : List Nat) (n : Nat) (t : Tensor α) (h : Pull
   · right; rw [transpose_scalarLike p t hs]; exact ⟨hs, hr⟩
 
 end J2O
+
+namespace J2O
+
+theorem bstep_self {α} (t : Tensor α) (j : Nat) : bstep t.rank j 1 t = t.dim j := by
+  simp only [bstep, Nat.sub_self, Nat.not_lt_zero, if_false, Nat.sub_zero]
+  split <;> simp_all
+
+theorem pw_unary_spec {α} (g : List α → α) (t : Tensor α) :
+    (pw g [t]).rank = t.rank ∧ (pw g [t]).dim = t.dim ∧
+      ∀ i, (pw g [t]).get i = g [t.get (bidx t t.rank i)] := by
+  have hr : maxRank [t] = t.rank := by simp [maxRank]
+  refine ⟨by simp [pw, hr], ?_, ?_⟩
+  · funext j; simp [pw, hr, bdim, bstep_self]
+  · intro i; simp [pw, hr]
+
+theorem bidx_idem {α} (t : Tensor α) (i : Nat → Nat) :
+    bidx t t.rank (bidx t t.rank i) = bidx t t.rank i := by
+  funext k
+  simp only [bidx, Nat.sub_self, Nat.add_zero]
+  split <;> simp_all
+
+/-- binary pointwise operator on two tensors of the same rank and extents -/
+theorem pw_pair_spec {α} (f : List α → α) (a b : Tensor α) (hrk : b.rank = a.rank)
+    (hd : b.dim = a.dim) :
+    (pw f [a, b]).rank = a.rank ∧ (pw f [a, b]).dim = a.dim ∧
+      ∀ i, (pw f [a, b]).get i = f [a.get (bidx a a.rank i), b.get (bidx a a.rank i)] := by
+  have hr : maxRank [a, b] = a.rank := by simp [maxRank, hrk]
+  refine ⟨by simp [pw, hr], ?_, ?_⟩
+  · funext j
+    simp only [pw, hr, bdim, List.foldl_cons, List.foldl_nil]
+    rw [bstep_self]
+    simp only [bstep, hrk, Nat.sub_self, Nat.not_lt_zero, if_false, Nat.sub_zero, hd]
+    split <;> simp_all
+  · intro i
+    have e : bidx b a.rank i = bidx a a.rank i := by
+      funext k; simp only [bidx, hd, hrk]
+    simp [pw, hr, e]
+
+/-- A binary pointwise operator applied to `t` and a unary pointwise image of `t` is the unary
+    pointwise operator with the composed scalar function (e.g. `x * Sigmoid(x) = Swish(x)` follows
+    from the scalar identity). -/
+theorem pw_self_compose {α} (f g h : List α → α) (hfg : ∀ v, f [v, g [v]] = h [v])
+    (t : Tensor α) : pw f [t, pw g [t]] = pw h [t] := by
+  obtain ⟨gr, gd, gg⟩ := pw_unary_spec g t
+  obtain ⟨hr, hd, hg⟩ := pw_unary_spec h t
+  obtain ⟨pr, pd, pg⟩ := pw_pair_spec f t (pw g [t]) gr gd
+  apply Tensor.ext'
+  · rfl
+  · rw [pr, hr]
+  · rw [pd, hd]
+  · funext i
+    rw [pg, hg, gg, bidx_idem]
+    exact hfg _
+
+theorem pw_compose_self {α} (f g h : List α → α) (hfg : ∀ v, f [g [v], v] = h [v])
+    (t : Tensor α) : pw f [pw g [t], t] = pw h [t] := by
+  obtain ⟨gr, gd, gg⟩ := pw_unary_spec g t
+  obtain ⟨hr, hd, hg⟩ := pw_unary_spec h t
+  obtain ⟨pr, pd, pg⟩ := pw_pair_spec f (pw g [t]) t gr.symm gd.symm
+  apply Tensor.ext'
+  · simp [pw]
+  · rw [pr, gr, hr]
+  · rw [pd, gd, hd]
+  · funext i
+    rw [pg, hg, gg, gr]
+    have e : bidx (pw g [t]) t.rank i = bidx t t.rank i := by
+      funext k; simp only [bidx, gd, gr]
+    rw [e, bidx_idem]
+    exact hfg _
+
+end J2O
